@@ -91,6 +91,28 @@ pub fn check_abort_points(sh: &mut Shard, family: &str, prog: &[Stmt], n: u64) {
 /// collection), for N around every power of two: floats, strings and arrays as garbage, as a growing live
 /// structure, and as a wide live array; followed by nothing, by a call (one collection facing N dead or N live
 /// objects), by a run-time error, or with the error in the last iteration.
+/// See `count_ladder_programs`: a function that allocates n objects in a loop, called while its callers hold
+/// fresh heap values on the operand stack only.
+fn callers_hold_program(n: usize) -> Vec<Stmt> {
+    use crate::gen::*;
+    use nederlang::verif::Operator;
+    let ni = n as i64;
+    vec![
+        es(func(
+            "vul",
+            &["n"],
+            vec![let_("i", int(0)), es(whil(infix(id("i"), Operator::Lt, id("n")), vec![let_("t", array(vec![calln("float", vec![id("i")])])), es(op_assign("i", Operator::Add, int(1)))])), es(id("i"))],
+        )),
+        es(func("eerste", &["a", "b"], vec![es(id("a"))])),
+        es(func("buiten", &["n"], vec![let_("x", infix(flt(1.5), Operator::Multiply, flt(2.0))), let_("s", calln("string", vec![id("n")])), es(calln("vul", vec![id("n")])), es(array(vec![id("x"), id("s")]))])),
+        es(func("dieper", &["n"], vec![let_("y", array(vec![infix(flt(2.5), Operator::Multiply, flt(2.0))])), es(array(vec![calln("buiten", vec![id("n")]), id("y")]))])),
+        let_("r1", array(vec![infix(flt(1.5), Operator::Multiply, flt(2.0)), calln("vul", vec![int(ni)]), calln("string", vec![int(7)])])),
+        let_("r2", calln("eerste", vec![infix(flt(2.5), Operator::Multiply, flt(2.0)), calln("vul", vec![int(ni)])])),
+        let_("r3", calln("dieper", vec![int(ni)])),
+        es(array(vec![id("r1"), id("r2"), id("r3")])),
+    ]
+}
+
 pub fn count_ladder_programs(tier: crate::shard::Tier) -> Vec<(usize, Vec<Stmt>)> {
     use crate::gen::*;
     use nederlang::verif::Operator;
@@ -128,6 +150,11 @@ pub fn count_ladder_programs(tier: crate::shard::Tier) -> Vec<(usize, Vec<Stmt>)
                     es(array(vec![id("lijst"), id("ander")])),
                 ],
             ));
+            // the callee lets n objects pile up while its CALLERS hold fresh values only on the stack: as a pending
+            // operand of a list literal, as an argument of an enclosing call, as a local of the calling function
+            if n <= 1_100_000 {
+                out.push((n, callers_hold_program(n)));
+            }
             // a linked list, link last / link first, walked after a collection
             for link_last in [true, false] {
                 if n > 1_100_000 {
@@ -191,6 +218,9 @@ pub fn count_ladder_programs(tier: crate::shard::Tier) -> Vec<(usize, Vec<Stmt>)
                 out.push((n, prog));
             }
         }
+    }
+    for n in sizes.clone() {
+        out.push((n, callers_hold_program(n)));
     }
     for n in sizes {
         let ni = n as i64;
